@@ -1,7 +1,7 @@
 (* C07 - Running out of time at any point in the search is safe (model-level part).
    The full statements (a)-(e) for every expiry index are decided on the real search by enumerating
    every k through the virtual clock and replaying each run node for node on the model. *)
-From Walleye Require Import Model.Search Proofs.DrawTableProofs Proofs.SearchBasics Proofs.RootProofs Proofs.MateText Proofs.TableRestored.
+From Walleye Require Import Model.Search Proofs.DrawTableProofs Proofs.SearchBasics Proofs.RootProofs Proofs.MateText Proofs.TableRestored Proofs.ClockSim Proofs.RootSim.
 Open Scope Z_scope.
 
 (* (a) whatever is handed back, at whichever consultation the clock expires, is a generated root move *)
@@ -28,6 +28,32 @@ Proof. exact clock_monotone. Qed.
 Theorem C07_abort_value_not_a_cp_score : mate_number NEG_INF <> None /\ mate_number POS_INF <> None.
 Proof. exact abort_value_not_cp. Qed.
 
+(* (b) no taint: the root accepts an evaluation only after a clock test that comes after every
+   consultation of the sub-search; if that test does not report expiry, no consultation inside the
+   sub-search did, and the value (and the whole resulting state) is the one an unlimited search computes
+   from the same state -- never the abort value or anything derived from it *)
+Theorem C07_no_taint : forall zt osort k fuel mov d ply a be n s v s1 s2,
+  alpha_beta zt osort k fuel mov d ply a be n s = Ok (v, s1) ->
+  clock s2 = clock s1 ->
+  fst (out_of_time k s2) = false ->
+  alpha_beta zt osort None fuel mov d ply a be n s = Ok (v, s1).
+Proof. exact accepted_value_is_untainted. Qed.
+
+(* a sub-search that ends before the clock expires is reproduced under every later expiry *)
+Theorem C07_subsearch_simulation : forall zt osort k1 k2, le_k k1 k2 ->
+  forall fuel b d ply a be n s v s', alpha_beta zt osort k1 fuel b d ply a be n s = Ok (v, s') ->
+    (clock s <= clock s')%N /\ (quiet k1 s' -> alpha_beta zt osort k2 fuel b d ply a be n s = Ok (v, s')).
+Proof. intros zt osort k1 k2 Hk fuel. exact (alpha_beta_sim zt osort k1 k2 Hk fuel). Qed.
+
+(* (c) prefix: the improvements reported under a smaller allowance are a prefix of those reported under
+   a larger one (or under none), for every position, record, ordering oracle and pair of expiry indices *)
+Theorem C07_prefix : forall zt osort k1 k2 fuel b t ev1 s1 ev2 s2,
+  le_k k1 k2 ->
+  get_best_move zt osort k1 fuel b t = Ok (ev1, s1) ->
+  get_best_move zt osort k2 fuel b t = Ok (ev2, s2) ->
+  exists more, ev_infos ev2 = ev_infos ev1 ++ more.
+Proof. exact reports_prefix. Qed.
+
 (* (d) the whole search: whatever the position, the ordering, the window and the consultation at which
    the clock expires, the repetition record handed to get_best_move is, as a lookup function, what
    comes back -- every exit path of every node passes exactly one remove after its add *)
@@ -53,6 +79,9 @@ Print Assumptions C07_expired_node_aborts.
 Print Assumptions C07_clock_monotone.
 Print Assumptions C07_abort_value_not_a_cp_score.
 Print Assumptions C07_table_add_remove.
+Print Assumptions C07_no_taint.
+Print Assumptions C07_subsearch_simulation.
+Print Assumptions C07_prefix.
 Print Assumptions C07_table_restored.
 Print Assumptions C07_node_restores_table.
 Print Assumptions C07_quiescence_leaves_table.
